@@ -388,6 +388,22 @@ func healthStream(cfg *Config) *hx.Stats {
 			}
 			hx.SortIDs(ids)
 			w.L("OBS ok:%s", strings.Join(idStrs(ids), ","))
+			// model-free: every live loaded slab is yielded exactly once; with everything loaded
+			// nothing else is yielded
+			n := map[atree.SlabID]int{}
+			for _, id := range ids {
+				n[id]++
+			}
+			live := liveHeap(hw.ps, diff)
+			for _, s := range live {
+				if n[s.id] != 1 {
+					viol(prog, fmt.Sprintf("slab iterator yielded the live slab %s %d times (%s)", hx.IDStr(s.id), n[s.id], label), "")
+					break
+				}
+			}
+			if !strings.HasPrefix(label, "lazy") && len(ids) != len(live) {
+				viol(prog, fmt.Sprintf("slab iterator yielded %d slabs, the storage (all loaded) holds %d live slabs (%s)", len(ids), len(live), label), "")
+			}
 		}
 		st.Ops++
 		st.Hit("iter:" + strings.SplitN(label, "@", 2)[0])
